@@ -576,6 +576,8 @@ pub enum LibOut {
 }
 
 pub fn err_name(e: &jsonb::Error) -> String {
+    // what a caller does with an error first: print it
+    let _ = e.to_string();
     let s = format!("{:?}", e);
     match s.find('(') {
         Some(i) => s[..i].to_string(),
@@ -648,6 +650,28 @@ pub fn call_with<'b>(op: &Op, args: &'b [Vec<u8>], trees: &[MVal], buf: &mut Vec
             w(jsonb::object_pick(&args[*v], &ks, buf))
         }
         Op::StripNulls { v } => w(jsonb::strip_nulls(&args[*v], buf)),
+        // 0 mod 4 items (not none): a lazy iterator that calls back into the library while the call that consumes it is
+        // in progress -- the recursive encoder `build_array(children.map(encode))`, a closure that inspects each item
+        Op::BuildArray { items } if !items.is_empty() && items.len() % 4 == 0 => w(jsonb::build_array(
+            items.iter().map(|i| {
+                let mut scratch = Vec::new();
+                let _ = jsonb::build_array([args[*i].as_slice()], &mut scratch);
+                let _ = jsonb::build_object([("k", args[*i].as_slice())], &mut scratch);
+                let _ = jsonb::type_of(&args[*i]);
+                args[*i].as_slice()
+            }),
+            buf,
+        )),
+        Op::BuildObject { items } if !items.is_empty() && items.len() % 4 == 0 => w(jsonb::build_object(
+            items.iter().map(|(k, i)| {
+                let mut scratch = Vec::new();
+                let _ = jsonb::build_object([(k.as_str(), args[*i].as_slice())], &mut scratch);
+                let _ = jsonb::build_array([args[*i].as_slice()], &mut scratch);
+                let _ = jsonb::array_length(&args[*i]);
+                (k.as_str(), args[*i].as_slice())
+            }),
+            buf,
+        )),
         // 2 mod 4 items: an iterator that really drops something -- its upper bound is above what it yields (the usual
         // way to skip NULL arguments)
         Op::BuildArray { items } if items.len() % 4 == 2 => {
